@@ -468,7 +468,8 @@ def run(ctx):
         if v.kind == "deadlock":
             what = e["a"] if e else "end"
             if e and e["a"] == "Fail" and sorted(e["obs"]) != sorted(e["c"]) and not set(e["c"]) & {"cancel", "keyboard"}:
-                sig = f"classify:{r['names'][-1] if r['names'] else '?'}"
+                nfail = sum(1 for x in r["ev"][:l] if x["a"] == "Fail")
+                sig = f"classify:{r['names'][nfail - 1] if 0 < nfail <= len(r['names']) else '?'}"
             elif e and e["a"] == "Sleep" and prev and prev["a"] == "Fail":
                 sig = f"decision:{cls}:retried" if _band_ok(last.get("tries", 0), e["d"]) else f"delay:tries={last.get('tries')}"
                 if _band_ok(last.get("tries", 0), e["d"]) and last.get("cur") == frozenset({"limited"}):
